@@ -4,6 +4,7 @@ import (
 	"fmt"
 	"go/ast"
 	"go/types"
+	"sort"
 	"strings"
 )
 
@@ -39,6 +40,7 @@ var c01ExemptCases = map[string]string{
 
 func checkC01(c *Ctx) {
 	c01ScalarMerge(c)
+	c01TopIsNeutral(c)
 	nCases := 0
 	for _, fn := range []string{"(*nodeContext).scheduleConjunct", "(*nodeContext).insertValueConjunct"} {
 		f := c.fn(adtP, fn)
@@ -286,4 +288,134 @@ func c01ScalarMerge(c *Ctx) {
 		c.check("scalar.second-value-compared-not-replaced", f.Name+"/"+row.name, f.Decl.Pos(), vis[assign] == row.recorded && vis[cmp] == row.compd,
 			fmt.Sprintf("scalar merge, class %s: recorded as the field's scalar=%v (want %v), compared for equality with the recorded one=%v (want %v) — a later scalar of the same priority must be compared, never silently replace the earlier one, or the result depends on conjunct order", row.name, vis[assign], row.recorded, vis[cmp], row.compd))
 	}
+}
+
+// c01TopIsNeutral: `x & _` must evaluate to `x`, however the `_` is written
+// (an operand, a second declaration, an embedding). In insertValueConjunct the
+// `*Top` arm may therefore record only that a top was seen (hasTop, the typo
+// checker's conjunct info); any other node state it changes — directly or
+// through the nodeContext methods it calls — is state a program without the
+// `_` does not have. (The arm used to call updateCyclicStatus, which counts
+// the `_` as non-cyclic content and releases the held-back cyclic conjuncts:
+// `#B: ref: (null | #B) & _` expanded one level further than
+// `#A: ref: null | #A`.)
+func c01TopIsNeutral(c *Ctx) {
+	const rule = "top.conjunct-is-neutral"
+	f := c.fn(adtP, "(*nodeContext).insertValueConjunct")
+	info := f.Info()
+	var arm *ast.CaseClause
+	ast.Inspect(f.Body, func(x ast.Node) bool {
+		cc, ok := x.(*ast.CaseClause)
+		if !ok {
+			return true
+		}
+		for _, e := range cc.List {
+			if exprString(e) == "*Top" {
+				arm = cc
+			}
+		}
+		return true
+	})
+	if arm == nil {
+		c.broken("anchor: insertValueConjunct has no `case *Top` arm")
+	}
+	allowed := map[string]bool{"hasTop": true, "conjunctInfo": true,
+		"ctx": true, // n.ctx.stats.* counters: statistics on the shared context, not node state
+	}
+	// fields of nodeContext written through the receiver in a method body
+	recvType := func(fn *Fn) types.Object {
+		if fn.Decl == nil || fn.Decl.Recv == nil || len(fn.Decl.Recv.List) != 1 || len(fn.Decl.Recv.List[0].Names) != 1 {
+			return nil
+		}
+		return fn.Info().Defs[fn.Decl.Recv.List[0].Names[0]]
+	}
+	var written func(fn *Fn, recv types.Object, depth int, seen map[string]bool) map[string]string
+	written = func(fn *Fn, recv types.Object, depth int, seen map[string]bool) map[string]string {
+		out := map[string]string{}
+		if fn == nil || recv == nil || seen[fn.Name] {
+			return out
+		}
+		seen[fn.Name] = true
+		finfo := fn.Info()
+		fieldOf := func(e ast.Expr) string {
+			for {
+				switch x := ast.Unparen(e).(type) {
+				case *ast.IndexExpr:
+					e = x.X
+				case *ast.SelectorExpr:
+					if identObj(finfo, x.X) == recv {
+						return x.Sel.Name
+					}
+					e = x.X
+				default:
+					return ""
+				}
+			}
+		}
+		ast.Inspect(fn.Body, func(x ast.Node) bool {
+			switch s := x.(type) {
+			case *ast.AssignStmt:
+				for _, l := range s.Lhs {
+					if fld := fieldOf(l); fld != "" {
+						out[fld] = fn.Name
+					}
+				}
+			case *ast.IncDecStmt:
+				if fld := fieldOf(s.X); fld != "" {
+					out[fld] = fn.Name
+				}
+			case *ast.CallExpr:
+				if depth > 0 {
+					if sel, ok := ast.Unparen(s.Fun).(*ast.SelectorExpr); ok && identObj(finfo, sel.X) == recv {
+						if callee := c.fnOpt(adtP, "(*nodeContext)."+sel.Sel.Name); callee != nil {
+							for k, v := range written(callee, recvType(callee), depth-1, seen) {
+								out[k] = v
+							}
+						}
+					}
+				}
+			}
+			return true
+		})
+		return out
+	}
+	// the arm itself: direct writes and calls through n
+	var recv types.Object
+	if f.Decl.Recv != nil && len(f.Decl.Recv.List[0].Names) == 1 {
+		recv = info.Defs[f.Decl.Recv.List[0].Names[0]]
+	}
+	got := map[string]string{}
+	for _, st := range arm.Body {
+		ast.Inspect(st, func(x ast.Node) bool {
+			switch s := x.(type) {
+			case *ast.AssignStmt:
+				for _, l := range s.Lhs {
+					if sel, ok := ast.Unparen(l).(*ast.SelectorExpr); ok && identObj(info, sel.X) == recv {
+						got[sel.Sel.Name] = "the arm"
+					}
+				}
+			case *ast.CallExpr:
+				if sel, ok := ast.Unparen(s.Fun).(*ast.SelectorExpr); ok && identObj(info, sel.X) == recv {
+					callee := c.fnOpt(adtP, "(*nodeContext)."+sel.Sel.Name)
+					if callee == nil {
+						got["?"+sel.Sel.Name] = "unresolved call"
+						return true
+					}
+					for k, v := range written(callee, recvType(callee), 2, map[string]bool{}) {
+						got[k] = v
+					}
+				}
+			}
+			return true
+		})
+	}
+	var bad []string
+	for fld, via := range got {
+		if !allowed[fld] {
+			bad = append(bad, fld+" (via "+strings.TrimPrefix(via, adtP+".")+")")
+		}
+	}
+	sort.Strings(bad)
+	c.check(rule, f.Name+"/case *Top", arm.Pos(), len(bad) == 0 && len(got) > 0,
+		"the `*Top` arm of insertValueConjunct may change no node state other than hasTop and the typo checker's conjunctInfo: `x & _` must leave exactly the state `x` leaves; also written: "+strings.Join(bad, ", "))
 }
